@@ -292,7 +292,9 @@ class Interp:
         if not isinstance(base, Obj):
             raise _nt(node, '(field %r of %r)' % (key, base))
         if base.shape[0] == 'rec':
-            if key not in base.shape[1]:
+            if isinstance(key, int) and '__order__' in base.shape[1] and 0 <= key < len(base.shape[1]['__order__']):
+                key = base.shape[1]['__order__'][key]          # a named tuple: the field at that position
+            if key not in base.shape[1] or key == '__order__':
                 raise _nt(node, '(unknown field %r of %s)' % (key, base.path))
             return mk('%s.%s' % (base.path, key), base.shape[1][key])
         if base.shape[0] == 'tuple':
@@ -795,6 +797,10 @@ class Interp:
             if isinstance(value, Obj) and value.shape[0] == 'tuple' and len(value.shape[1]) == len(target.elts):
                 for i, t in enumerate(target.elts):
                     self.bind(t, mk('%s.%d' % (value.path, i), value.shape[1][i]), env)
+                return
+            if isinstance(value, Obj) and value.shape[0] == 'rec' and len(value.shape[1].get('__order__', ())) == len(target.elts):
+                for nm, t in zip(value.shape[1]['__order__'], target.elts):      # unpacking a named tuple
+                    self.bind(t, mk('%s.%s' % (value.path, nm), value.shape[1][nm]), env)
                 return
         raise _nt(target, '(assignment target)')
 
